@@ -156,6 +156,7 @@ def main():
     tier = a.tier if a.tier in ('quick', 'thorough') else 'quick'
     seed = int(os.environ.get('VERIF_SEED', '1') or 1)
     rep = Report(pid, tier, seed)
+    watchdog(rep, 2400 if tier == 'quick' else 6 * 3600)
 
     rc, out = ensure_build()
     build_ok = rc == 0
@@ -189,6 +190,29 @@ def main():
             rep.violation('harness', 'harness error: ' + core.fmt_exc()[-800:], {'layer': 'harness', 'traceback': core.fmt_exc()})
 
     finish(rep, mod)
+
+
+def watchdog(rep, seconds):
+    """Safety net: every implementation call already runs under a wall-clock limit; should the check as a whole still not finish
+    (a hang in a place no limit covers), it is reported as a violation with the stack of the stuck thread instead of hanging."""
+    import threading
+    import faulthandler
+    import tempfile
+
+    def fire():
+        tf = tempfile.TemporaryFile(mode='w+')
+        faulthandler.dump_traceback(file=tf, all_threads=True)
+        tf.seek(0)
+        stack = tf.read()[-3000:]
+        body = {'no_failing_input_found': True, 'broken': 'the check did not finish within %d s: an implementation call does not return' % seconds, 'stack': stack,
+                'searched': {'evaluations': rep.evaluations, 'tier': rep.tier, 'seed': rep.seed}}
+        path = write_replay(rep.pid, 'harness', 'check did not finish', body)
+        print('  check did not finish within %d s; stack of the stuck call:\n%s' % (seconds, stack[-800:]))
+        print('VIOLATION property=%s replay=%s no-failing-input-found' % (rep.pid, path), flush=True)
+        os._exit(1)
+    t = threading.Timer(seconds, fire)
+    t.daemon = True
+    t.start()
 
 
 def finish(rep, mod):
@@ -289,5 +313,25 @@ def write_evidence(rep, mod, nviol):
         json.dump(ev, f, indent=1, default=str)
 
 
+def _source_coverage():
+    """VERIF_COVERAGE=<dir>: measure which lines and branches of the implementation the generators of this run reach
+    (tools/source_coverage.py combines the files); a measuring aid for the correspondence, never part of a verdict."""
+    d = os.environ.get('VERIF_COVERAGE')
+    if not d:
+        return
+    import atexit
+    import coverage
+    os.makedirs(d, exist_ok=True)
+    cov = coverage.Coverage(data_file=os.path.join(d, 'cov.%s.%d' % (sys.argv[1], os.getpid())), branch=True,
+                            source=[os.path.join(os.environ.get('MICROSCHC_REPO', '/repo'), 'microschc')])
+    cov.start()
+
+    def done():
+        cov.stop()
+        cov.save()
+    atexit.register(done)
+
+
 if __name__ == '__main__':
+    _source_coverage()
     main()
